@@ -85,6 +85,19 @@ return log`, `["try", "finally", "outer-catch"]`, nil},
 	{"variadic-main-exact", "param (a, b, ...c)\nreturn [a, b, c]", `[1, 2, []]`, []ugo.Object{ugo.Int(1), ugo.Int(2)}},
 	{"variadic-main-more", "param (a, b, ...c)\nreturn [a, b, c]", `[1, 2, [3, 4]]`, []ugo.Object{ugo.Int(1), ugo.Int(2), ugo.Int(3), ugo.Int(4)}},
 	{"variadic-main-three-fixed-two-args", "param (a, b, d, ...c)\nreturn [a, b, d, c]", `[1, 2, undefined, []]`, []ugo.Object{ugo.Int(1), ugo.Int(2)}},
+	{"call-after-panic-unwound-discarded-tail", `global hostPanic
+var f
+f = func(n) { if n == 0 { hostPanic() }; f(n - 1) }
+g := func() { return 42 }
+r := "none"
+try { f(2) } catch e { r = "caught" }
+return [r, g(), g()]`, `["caught", 42, 42]`, nil},
+	{"call-after-panic-unwound-discarded-tail-nested", `global hostPanic
+var f
+f = func(n) { if n == 0 { hostPanic() }; f(n - 1) }
+h := func() { try { f(3) } catch e { return "c" } }
+g := func(v) { return v * 2 }
+return [h(), g(21), h(), g(4)]`, `["c", 42, "c", 8]`, nil},
 	{"json-marshaler-panics-object", `global mObject
 json := import("json")
 try { return string(json.MarshalIndent(mObject, "", " ")) } catch e { return "outer" }`, `outer`, nil},
